@@ -42,7 +42,12 @@ type Op struct {
 	Opts    []ROpt
 	Probe   int // 0 exact 1 tsr 2 noroute 3 wrongmethod 4 options
 	AKey    int
+	Entry   string // lookup: ERouter ETxnRead ETxnWrite
+	Adj     bool   // lookup: request with the trailing slash toggled
+	Mw      bool   // lookup: run route.HandleMiddleware(cc) instead of route.Handle(cc)
 }
+
+var entryNames = []string{"ERouter", "ETxnRead", "ETxnWrite"}
 
 var probeNames = []string{"PExact", "PTsr", "PNoRoute", "PWrongMethod", "POptions"}
 
@@ -283,6 +288,9 @@ func opTerm(o Op) string {
 	case "annotget":
 		return fmt.Sprintf("(OAnnotGet %d %d)", o.Key, o.AKey)
 	}
+	if o.Kind == "lookup" {
+		return fmt.Sprintf("(OLookup %s %d %s %s)", o.Entry, o.Key, hx.Bool(o.Adj), hx.Bool(o.Mw))
+	}
 	return fmt.Sprintf("(OAccess %d)", o.Key)
 }
 func errTerm(err error) string {
@@ -403,6 +411,50 @@ func runOp(f *fox.Router, rec *probeRec, pats []Pat, o Op) (obs string) {
 			return fmt.Sprintf("(ObsAnnot (Some %d))", n)
 		}
 		return "(ObsAnnot (Some 255))"
+	}
+	if o.Kind == "lookup" {
+		// secondary entry points: Router.Lookup / Txn.Lookup, then the returned route is run on the returned context
+		*rec = probeRec{}
+		path := p.Path
+		if o.Adj {
+			path = p.TsrPath
+		}
+		req := httptest.NewRequest(http.MethodGet, path, nil)
+		if p.Host != "" {
+			req.Host = p.Host
+		}
+		w := fox.NewTestContextOnly(httptest.NewRecorder(), req).Writer()
+		var (
+			rte *fox.Route
+			cc  fox.ContextCloser
+			tsr bool
+		)
+		switch o.Entry {
+		case "ERouter":
+			rte, cc, tsr = f.Lookup(w, req)
+		default:
+			txn := f.Txn(o.Entry == "ETxnWrite")
+			defer txn.Abort()
+			rte, cc, tsr = txn.Lookup(w, req)
+		}
+		if rte == nil {
+			return "ObsLookupNone"
+		}
+		defer cc.Close()
+		own, cl := viewTerm(cc), viewTerm(cc.Clone())
+		cp := cc.CloneWith(cc.Writer(), cc.Request())
+		cw := viewTerm(cp)
+		cp.Close()
+		if o.Mw {
+			rte.HandleMiddleware(cc)
+		} else {
+			rte.Handle(cc)
+		}
+		down := "None"
+		if rec.down != "" {
+			down = "(Some " + rec.down + ")"
+		}
+		return fmt.Sprintf("(ObsLookup %s %s %s %s %s)", hx.Bool(tsr), own, cl, cw, down)
 	}
 	rte := f.Route(http.MethodGet, p.Pattern)
 	if rte == nil {
@@ -581,6 +633,12 @@ func (g *gen) ops(pats []Pat, invalidPct int) []Op {
 		}
 		return Op{Kind: "probe", Key: key, Probe: pr}
 	}
+	lookup := func(key int, entry string, adj, mw bool) Op {
+		if pats[key].TsrPath == "" {
+			adj = false
+		}
+		return Op{Kind: "lookup", Key: key, Entry: entry, Adj: adj, Mw: mw}
+	}
 	for i := 0; i < n; i++ {
 		r := g.rnd.Intn(100)
 		if i == 0 && g.rnd.Pct(85) {
@@ -603,9 +661,11 @@ func (g *gen) ops(pats []Pat, invalidPct int) []Op {
 			if pats[key].Valid && handler {
 				reg[key] = true
 			}
-		case r < 75:
+		case r < 66:
 			out = append(out, probe(keyFor(true)))
-		case r < 88:
+		case r < 78:
+			out = append(out, lookup(keyFor(true), hx.Pick(g.rnd, entryNames), g.rnd.Bool(), g.rnd.Bool()))
+		case r < 89:
 			out = append(out, Op{Kind: "annotget", Key: keyFor(true), AKey: g.rnd.Intn(5)})
 		default:
 			out = append(out, Op{Kind: "access", Key: keyFor(true)})
@@ -617,6 +677,9 @@ func (g *gen) ops(pats []Pat, invalidPct int) []Op {
 			continue
 		}
 		out = append(out, Op{Kind: "probe", Key: key, Probe: pr})
+	}
+	for i, e := range entryNames { // every secondary entry point, direct and slash-adjusted
+		out = append(out, lookup(key, e, false, i%2 == 0), lookup(key, e, true, i%2 == 1))
 	}
 	out = append(out, Op{Kind: "access", Key: key})
 	for k := 0; k < 5; k++ { // every annotation key the generator uses
@@ -642,7 +705,7 @@ func main() {
 			"Definition oof := Eval vm_compute in fuel_outs cases.\nPrint oof.\n" +
 			"Definition known_newroute_nil_handler := Eval vm_compute in Corr.known_newroute_nil_handler cases.\nPrint known_newroute_nil_handler.\n",
 	}
-	st := &hx.Stats{Rule: "a case = 0-7 seeded global options (trailing-slash modes on/off, resolvers incl. nil, middleware incl. nil, nil/non-nil special handlers, NoMethod/AutoOptions, DefaultOptions) + the probing middleware; 3 patterns built from tokens (static, {param}, prefix{param}, suffix / infix catch-all, optional hostname with wildcards, optional trailing slash; an invalid-pattern stream); 3-9 operations (Handle / Update / NewRoute+HandleRoute with 0-6 route options: both trailing-slash modes, resolvers incl. nil, annotations with hashable / nil / unhashable-dynamic / non-comparable keys and nil values, middleware incl. nil; requests exact / trailing-slash-toggled / unmatched / POST / OPTIONS; Route.Annotation; accessors) + a closing sweep; exhaustive: all sequences of <= L global and <= L route trailing-slash options; router resolver x route resolver (inherited / own / nil) x route trailing-slash mode x five request shapes. Every request reads ClientIP and Route().Pattern() on the middleware's context, on c.Clone(), on c.CloneWith(...) and in the route handler that receives the CloneWith copy. non-trivial = a route was created with at least one route option or a create operation failed; distinct = distinct (options, patterns, operations)"}
+	st := &hx.Stats{Rule: "a case = 0-7 seeded global options (trailing-slash modes on/off, resolvers incl. nil, middleware incl. nil, nil/non-nil special handlers, NoMethod/AutoOptions, DefaultOptions) + the probing middleware; 3 patterns built from tokens (static, {param}, prefix{param}, suffix / infix catch-all, optional hostname with wildcards, optional trailing slash; an invalid-pattern stream); 3-9 operations (Handle / Update / NewRoute+HandleRoute with 0-6 route options: both trailing-slash modes, resolvers incl. nil, annotations with hashable / nil / unhashable-dynamic / non-comparable keys and nil values, middleware incl. nil; requests exact / trailing-slash-toggled / unmatched / POST / OPTIONS; Route.Annotation; accessors) + a closing sweep; exhaustive: all sequences of <= L global and <= L route trailing-slash options; router resolver x route resolver (inherited / own / nil) x route trailing-slash mode x five request shapes x {Router.Lookup, Txn.Lookup read-only, Txn.Lookup write} x {direct, slash-adjusted} x {Route.Handle, Route.HandleMiddleware}. Every request reads ClientIP and Route().Pattern() on the middleware's context, on c.Clone(), on c.CloneWith(...) and in the route handler that receives the CloneWith copy. non-trivial = a route was created with at least one route option or a create operation failed; distinct = distinct (options, patterns, operations)"}
 	seen := map[string]bool{}
 	nontrivial := 0
 
@@ -818,6 +881,13 @@ func main() {
 				ops := []Op{{Kind: "create", Via: "VHandle", Key: 0, Handler: true, Opts: ropts}}
 				for pr := 0; pr < 5; pr++ {
 					ops = append(ops, Op{Kind: "probe", Key: 0, Probe: pr})
+				}
+				for _, e := range entryNames {
+					for _, adj := range []bool{false, true} {
+						for _, mw := range []bool{false, true} {
+							ops = append(ops, Op{Kind: "lookup", Key: 0, Entry: e, Adj: adj, Mw: mw})
+						}
+					}
 				}
 				add(gopts, []Pat{pat}, ops, "exhaustive-resolver")
 			}
